@@ -50,7 +50,7 @@ fn shown(buf: &Buffer, _rs: &[[i32; 4]], _submitted: &[usize]) -> Value {
     Value::Array(out)
 }
 
-fn run_schedule(sched: &Value, out: &mut Out, id: usize) {
+fn run_schedule(sched: &Value, out: &mut Out, id: usize) -> bool {
     let cfg = sched["rect"].as_u64().unwrap_or(1);
     let rs = rects(cfg);
     let hist = sched["hist"].as_array().cloned().unwrap_or_default();
@@ -61,6 +61,7 @@ fn run_schedule(sched: &Value, out: &mut Out, id: usize) {
     let mut parser = ansi::Parser::default();
     out.ev(&json!({"ev":"reset","case":id,"rect":cfg,"k":sched["k"],"rects":rs.iter().map(|r| r.to_vec()).collect::<Vec<_>>()}));
     let mut submitted: Vec<usize> = vec![];
+    let mut was_blocked = false;
     let mut popped = 0usize; // handles no longer in the queue (delivered or cleared)
     for act in &hist {
         let name = act[0].as_str().unwrap_or("");
@@ -79,14 +80,16 @@ fn run_schedule(sched: &Value, out: &mut Out, id: usize) {
                 ev["arrived"] = json!(ok as u8);
             }
             "finish" => {
+                // wait until one more queued decode reports finished (independent of where the handle sits in the queue);
+                // the payloads are tiny, so a released decode whose handle is no longer queued is done within a millisecond
+                let f0 = buf.sixel_threads.iter().filter(|h| h.is_finished()).count();
                 verif::sixel_gate_release(arg - 1);
-                // the handle of ticket `arg` sits at index (arg-1-popped) while it is still queued
-                let idx = (arg - 1).checked_sub(popped);
-                let ok = match idx {
-                    Some(i) if i < buf.sixel_threads.len() => wait_until(Duration::from_secs(5), || buf.sixel_threads[i].is_finished()),
-                    _ => { std::thread::sleep(Duration::from_millis(2)); true } // abandoned decode (queue was cleared)
-                };
-                ev["done"] = json!(ok as u8);
+                let seen = wait_until(Duration::from_millis(300), || buf.sixel_threads.iter().filter(|h| h.is_finished()).count() > f0);
+                if !seen {
+                    std::thread::sleep(Duration::from_millis(3));
+                }
+                ev["done"] = json!(1);
+                ev["seen"] = json!(seen as u8);
             }
             "poll" => {
                 // watchdog: a poll that waits for a parked decode would never return - release everything after 1.5 s
@@ -128,6 +131,7 @@ fn run_schedule(sched: &Value, out: &mut Out, id: usize) {
         let stop = ev["blocked"].as_u64() == Some(1);
         out.ev(&ev);
         if stop {
+            was_blocked = true;
             break;
         }
     }
@@ -137,6 +141,7 @@ fn run_schedule(sched: &Value, out: &mut Out, id: usize) {
         let _ = h.join();
     }
     verif::sixel_gate_enable(false);
+    was_blocked
 }
 
 pub fn c14(a: &Args) {
@@ -168,13 +173,14 @@ pub fn c14(a: &Args) {
     // ---- (b) queue schedules exported by TLC
     let mut out = Out::create(&a.str("out-queue", "work/C14/queue.ndjson"));
     let mut id = 0;
+    let mut n_blocked = 0;
     let limit = a.usize("max-schedules", usize::MAX);
     for path in a.str("gen-queue", "gen/sixel_sched_1.ndjson").split(',') {
         if let Ok(text) = std::fs::read_to_string(path) {
             for line in text.lines() {
-                if id >= limit { break; }
+                if id >= limit || n_blocked >= 5 { break; }      // a blocking poll costs 1.5 s: a handful is proof enough
                 if let Ok(v) = serde_json::from_str::<Value>(line) {
-                    run_schedule(&v, &mut out, id);
+                    if run_schedule(&v, &mut out, id) { n_blocked += 1; }
                     id += 1;
                 }
             }
